@@ -62,6 +62,10 @@ pub struct Case {
     pub server_keepalive_ms: Option<u32>,
     #[serde(default = "default_rate")]
     pub server_rate: u32,
+    /// a crowd: before anything else this many OTHER addresses send one well-formed request each within one server
+    /// step and never answer (the server then has the default limits of 4096 connections, so all of them are tracked)
+    #[serde(default)]
+    pub crowd: u16,
 }
 
 fn default_timeout() -> u32 {
@@ -116,7 +120,11 @@ impl Check for C18 {
             prop_oneof![3 => Just(0u32), 3 => Just(25_000u32), 3 => 0u32..30_000, 2 => 30_000u32..700_000],
             (prop_oneof![3 => Just(20_000u32), 1 => 1_000u32..20_000, 2 => 20_000u32..3_600_000, 1 => Just(u32::MAX)], proptest::option::of(prop_oneof![Just(1u32), 1u32..10_000, Just(u32::MAX)]), prop_oneof![3 => Just(2_000_000u32), 1 => 1u32..100_000, 1 => Just(u32::MAX)]),
         )
-            .prop_map(|(seed, max_total, max_active, server_packet_size, server_alloc, step_ms, ops, final_wait_ms, (server_timeout_ms, server_keepalive_ms, server_rate))| Case { seed, max_total, max_active, server_packet_size, server_alloc, step_ms, ops, final_wait_ms, server_timeout_ms, server_keepalive_ms, server_rate })
+            .prop_map(|(seed, max_total, max_active, server_packet_size, server_alloc, step_ms, ops, final_wait_ms, (server_timeout_ms, server_keepalive_ms, server_rate))| {
+                // (a crowd case costs a few hundred ordinary ones: one in four hundred, with coarse steps)
+                let crowd = if seed % 400 == 7 { 40 + ((seed >> 10) % 1000) as u16 } else { 0 };
+                Case { seed, max_total, max_active, server_packet_size, server_alloc, step_ms: if crowd > 0 { step_ms.max(100) } else { step_ms }, ops, final_wait_ms: if crowd > 0 { final_wait_ms.max(if seed & 64 == 0 { 120_000 } else { 600_000 }) } else { final_wait_ms }, server_timeout_ms, server_keepalive_ms, server_rate, crowd }
+            })
             .boxed()
     }
 
@@ -125,7 +133,7 @@ impl Check for C18 {
     }
 
     fn rule(&self) -> String {
-        "case = a real Server (limits 1..3 or 200, generated packet-size / allocation settings so that some requests are refused) with generated active-timeout (1 s .. 1 h, or 2^32-1 ms), keepalive and rate settings, and up to five spoofable source addresses sending, in a generated interleaving (one datagram in five is read in the same server step as the next one) with waits of 0..60 s (during some of which the server application stalls, i.e. does not step at all) and a final wait of up to 12 minutes (so that all SYN-ACK resends and the pending-entry expiry are observed, however the server is configured): handshake ACKs carrying the nonce of the latest SYN-ACK the server sent to ANOTHER of the addresses (what the owner of that address can replay under a spoofed source), well-formed padded SYNs (also wrong version, extreme limits), repeats of the previous SYN, SYN-typed frames of every length below 1472 with a valid checksum, handshake ACKs with arbitrary nonces, frames of every other type, bursts of up to 400 minimum-size frames (10..15 bytes) one per step - among them data frames numbered upwards from the nonce of the address's own SYN, as a real client's first frames would be -, raw bytes. No address ever completes the handshake. Oracle after every server step: no address is ever reported as connected; per address: bytes sent to it are 0 or strictly less than the bytes received from it; a datagram that is not a full-size SYN produces no reply at all, and copies of a SYN-ACK are never less than 2 s apart. Non-trivial = the server sent at least one byte to an unverified address. Distinct = distinct serialised case.".into()
+        "case = a real Server (limits 1..3 or 200, generated packet-size / allocation settings so that some requests are refused) with generated active-timeout (1 s .. 1 h, or 2^32-1 ms), keepalive and rate settings, and up to five spoofable source addresses sending, in a generated interleaving (one datagram in five is read in the same server step as the next one) with waits of 0..60 s (during some of which the server application stalls, i.e. does not step at all) and a final wait of up to 12 minutes (so that all SYN-ACK resends and the pending-entry expiry are observed, however the server is configured): handshake ACKs carrying the nonce of the latest SYN-ACK the server sent to ANOTHER of the addresses (what the owner of that address can replay under a spoofed source), well-formed padded SYNs (also wrong version, extreme limits), repeats of the previous SYN, SYN-typed frames of every length below 1472 with a valid checksum, handshake ACKs with arbitrary nonces, frames of every other type, bursts of up to 400 minimum-size frames (10..15 bytes) one per step - among them data frames numbered upwards from the nonce of the address's own SYN, as a real client's first frames would be -, raw bytes. One case in four hundred begins with a crowd: 40..1040 further addresses send one well-formed request each within one server step and never answer (the server then has the default limits, so that hundreds of handshakes are pending at once), and the final wait is at least 2 or 10 minutes. No address ever completes the handshake. Oracle after every server step: no address is ever reported as connected; per address: bytes sent to it are 0 or strictly less than the bytes received from it; a datagram that is not a full-size SYN produces no reply at all, and copies of a SYN-ACK are never less than 2 s apart. Non-trivial = the server sent at least one byte to an unverified address. Distinct = distinct serialised case.".into()
     }
 
     fn assumptions(&self) -> Vec<String> {
@@ -134,8 +142,8 @@ impl Check for C18 {
 
     fn run(&self, c: &Case) -> CaseResult {
         let cfg = ServerCfg {
-            max_total: c.max_total as u32,
-            max_active: c.max_active as u32,
+            max_total: if c.crowd > 0 { 4096 } else { c.max_total as u32 },
+            max_active: if c.crowd > 0 { 4096 } else { c.max_active as u32 },
             handshake_errors: true,
             ep: EpCfg {
                 max_packet_size: c.server_packet_size.max(1),
@@ -149,6 +157,8 @@ impl Check for C18 {
             },
         };
         let mut w = World::new(c.seed, &cfg);
+        // (nobody reads what the server sends to these addresses)
+        w.auto_discard = c.crowd > 0;
         let mut rx: HashMap<std::net::SocketAddr, u64> = HashMap::new();
         let mut tx: HashMap<std::net::SocketAddr, u64> = HashMap::new();
         let mut last_syn: HashMap<u8, Vec<u8>> = HashMap::new();
@@ -208,6 +218,20 @@ impl Check for C18 {
             None
         };
 
+        if c.crowd > 0 {
+            classes.push("crowd_of_pending_addresses");
+            for k in 0..c.crowd as u32 {
+                let a = raw_addr(1000 + k);
+                let b = Frame::HandshakeSynFrame(HandshakeSynFrame { version: 3, nonce: 77 + k, max_receive_rate: 100_000, max_packet_size: 1000, max_receive_alloc: 2_000_000 }).write().to_vec();
+                w.send_raw(a, w.server_addr, &b, 0);
+                *rx.entry(a).or_insert(0) += b.len() as u64;
+            }
+            w.advance(step_us);
+            w.step_server();
+            if let Some(v) = account(&w, &mut seen_wire, &mut tx, &rx) {
+                return CaseResult { violation: Some(v), nontrivial: true, classes };
+            }
+        }
         let mut batched = false;
         for op in c.ops.iter() {
             let a = raw_addr(op.addr as u32);
